@@ -47,3 +47,8 @@ Qed.
 
 Fixpoint units {A} (l : list A) : list unit :=
   match l with [] => [] | _ :: t => tt :: units t end.
+
+(* linear-time reverse (List.rev is quadratic when extracted) *)
+Definition frev {A} (l : list A) : list A := rev_append l [].
+Lemma frev_rev {A} (l : list A) : frev l = rev l.
+Proof. unfold frev. rewrite rev_append_rev. apply app_nil_r. Qed.
